@@ -144,6 +144,127 @@ void h_read_offset(void) { LHALH1Decoder *d; unsigned *r; vg_havoc(); read_offse
 void h_output_byte(void) { LHALH1Decoder *d; uint8_t *b; size_t *bl; uint8_t v; vg_havoc(); output_byte(d, b, bl, v); VG_CANARY("output_byte"); }
 void h_read(void) { void *d; uint8_t *b; vg_havoc(); lha_lh1_read(d, b); VG_CANARY("lha_lh1_read"); }
 
+/* ------------------------------------------------------------------------------------------------------------
+   C02: the sibling property of the adaptive tree, as a quantifier-free (Skolem) representation invariant.
+   LZHUF keeps the node table sorted by frequency and, on a hit, exchanges the node with the boundary node of its
+   equal-frequency run before incrementing it.  lhasa implements the same exchange with explicit "groups" (maximal
+   runs of equal frequency) and per-group leaders.  SIB says, for ARBITRARY node indices x < y, free-list slots f < f2:
+     SIB2(x,y)  freq is non-increasing by index, and two nodes share a group exactly when they have equal frequency;
+     SIB1(x)    the recorded leader of x's group is at or left of x, belongs to the group, and its left neighbour does not;
+     FREE1(f,x) ids on the free part of the id list are in range and not in use; FREE2(f,f2) they are pairwise distinct;
+     KID(x)     a leaf is the leaf recorded for its code; both children of a branch node name it as their parent.
+   Each group below assumes the invariant at the finitely many indices its argument needs (all of them instances of
+   the universally quantified precondition, so nothing is lost), runs the REAL function, and asserts the invariant at
+   arbitrary indices afterwards, plus the function's own LZHUF-step postconditions.  Loop-free code: complete. */
+#define VG_F(k)  vg_dec.nodes[k].freq
+#define VG_G(k)  vg_dec.nodes[k].group
+#define VG_LD(g) vg_dec.group_leader[g]
+#define VG_SIB2(x, y) ((x) >= (y) || (VG_F(x) >= VG_F(y) && ((VG_G(x) == VG_G(y)) == (VG_F(x) == VG_F(y)))))
+#define VG_SIB1(x) (VG_G(x) < VG_NN && VG_LD(VG_G(x)) <= (x) && VG_G(VG_LD(VG_G(x))) == VG_G(x) && \
+                    (VG_LD(VG_G(x)) == 0 || VG_G(VG_LD(VG_G(x)) - 1) != VG_G(x)))
+#define VG_FREE1(f, x) ((f) < vg_dec.num_groups || (f) >= VG_NN || (vg_dec.groups[f] < VG_NN && vg_dec.groups[f] != VG_G(x)))
+#define VG_FREE2(f, f2) ((f) < vg_dec.num_groups || (f) >= (f2) || (f2) >= VG_NN || vg_dec.groups[f] != vg_dec.groups[f2])
+#define VG_KID(x) (VG_ND(x).leaf ? (VG_ND(x).child_index < VG_NC && vg_dec.leaf_nodes[VG_ND(x).child_index] == (x)) \
+                                 : (VG_ND(x).child_index >= 1 && VG_ND(x).child_index < VG_NN && \
+                                    VG_ND(VG_ND(x).child_index).parent == (x) && VG_ND(VG_ND(x).child_index - 1).parent == (x)))
+
+#define VG_TMAX 16
+static unsigned vg_T[VG_TMAX], vg_nT;
+static void vg_T_add(unsigned k) { if (k < VG_NN && vg_nT < VG_TMAX) vg_T[vg_nT++] = k; }
+static void vg_T_add_with_leader(unsigned k)
+{
+	if (k >= VG_NN) return;
+	vg_T_add(k);
+	if (VG_G(k) < VG_NN) { unsigned l = VG_LD(VG_G(k)); vg_T_add(l); if (l >= 1) vg_T_add(l - 1); }
+}
+/* assume SIB at every index / pair of the instance set, and the free-list facts at the slots f1, f2 and the first free slot */
+static void vg_assume_sib(unsigned f1, unsigned f2)
+{
+	unsigned a, b, nf = vg_dec.num_groups;
+	__CPROVER_assume(vg_dec.num_groups <= VG_NN);
+	for (a = 0; a < VG_TMAX; a++) if (a < vg_nT) {
+		__CPROVER_assume(VG_SIB1(vg_T[a]));
+		__CPROVER_assume(VG_FREE1(f1, vg_T[a]) && VG_FREE1(f2, vg_T[a]) && VG_FREE1(nf, vg_T[a]));
+		for (b = 0; b < VG_TMAX; b++) if (b < vg_nT) __CPROVER_assume(VG_SIB2(vg_T[a], vg_T[b]));
+	}
+	__CPROVER_assume(VG_FREE2(f1, f2) && VG_FREE2(nf, f1) && VG_FREE2(nf, f2) && VG_FREE2(f2, f1));
+}
+
+/* increment_node_freq(n), n the leader of its group and not the root (what increment_for_code passes, hypotheses
+   S3/S5): SIB is preserved; the frequency of n goes up by one and no other frequency, no other node's group and no
+   tree link changes; afterwards n shares a group with its left neighbour exactly when their frequencies are equal
+   (LZHUF: the node has arrived at the boundary of the next equal-frequency run). */
+void h_inf_sib(void)
+{
+	uint16_t n = nondet_ushort();
+	unsigned x = nondet_uint(), y = nondet_uint(), f1 = nondet_uint(), f2 = nondet_uint();
+	uint16_t fx, gx, fn;
+	vg_havoc();
+	__CPROVER_assume(n >= 1 && n < VG_NN && x < VG_NN && y < VG_NN && f1 < VG_NN && f2 < VG_NN);
+	vg_nT = 0;
+	vg_T_add_with_leader(x); vg_T_add_with_leader(y); vg_T_add_with_leader(n - 1u); vg_T_add_with_leader(n); vg_T_add_with_leader(n + 1u);
+	vg_assume_sib(f1, f2);
+	__CPROVER_assume(VG_LD(VG_G(n)) == n);                      /* n is the leader of its group (S5) */
+	fx = VG_F(x); gx = VG_G(x); fn = VG_F(n);
+	increment_node_freq(&vg_dec, n);
+	__CPROVER_assert(VG_F(n) == (uint16_t) (fn + 1) && fn != 65535, "C02 increment_node_freq: the node's frequency goes up by exactly one (no wrap)");
+	__CPROVER_assert(x == n || (VG_F(x) == fx && VG_G(x) == gx), "C02 increment_node_freq: no other node's frequency or group changes");
+	__CPROVER_assert((VG_G(n) == VG_G(n - 1u)) == (VG_F(n) == VG_F(n - 1u)) && VG_F(n - 1u) >= VG_F(n),
+	                 "C02 increment_node_freq: the node joins the run to its left exactly when the frequencies are now equal, order kept");
+	__CPROVER_assert(VG_SIB2(x, y), "C02 sibling property preserved by increment_node_freq: sorted by frequency, group <=> equal frequency (arbitrary pair)");
+	__CPROVER_assert(VG_SIB1(x), "C02 sibling property preserved by increment_node_freq: group leaders (arbitrary node)");
+	__CPROVER_assert(VG_FREE1(f1, x) && VG_FREE2(f1, f2), "C02 group id free list stays disjoint from the ids in use and duplicate-free");
+	VG_CANARY("inf_sib");
+}
+
+/* make_group_leader(n): returns the leader l of n's group; the two nodes exchange their subtrees (leaf flag and
+   child/code) and nothing else: frequencies, groups, leaders and every other node are unchanged (so SIB is untouched),
+   and the parent/leaf back-links follow the exchange (KID at an arbitrary node). */
+void h_mgl_sib(void)
+{
+	uint16_t n = nondet_ushort(), r, l;
+	unsigned x = nondet_uint(), c = nondet_uint();
+	Node nx, nn, nl;
+	uint16_t ld, lf;
+	vg_havoc();
+	__CPROVER_assume(n < VG_NN && x < VG_NN && c < VG_NC);
+	__CPROVER_assume(VG_SIB1(n));
+	l = VG_LD(VG_G(n));
+	__CPROVER_assume(VG_KID(x) && VG_KID(n) && VG_KID(l));
+	nx = VG_ND(x); nn = VG_ND(n); nl = VG_ND(l); ld = VG_LD(c < VG_NN ? c : 0); lf = vg_dec.leaf_nodes[c];
+	r = make_group_leader(&vg_dec, n);
+	__CPROVER_assert(r == l, "C02 make_group_leader: returns the recorded leader of the node's group");
+	__CPROVER_assert(VG_F(x) == nx.freq && VG_G(x) == nx.group && VG_LD(c < VG_NN ? c : 0) == ld, "C02 make_group_leader: frequencies, groups and leaders are untouched");
+	__CPROVER_assert((x == n || x == l) || (VG_ND(x).leaf == nx.leaf && VG_ND(x).child_index == nx.child_index),
+	                 "C02 make_group_leader: nodes other than the two exchanged keep their subtree");
+	__CPROVER_assert(VG_ND(l).leaf == nn.leaf && VG_ND(l).child_index == nn.child_index && VG_ND(n).leaf == nl.leaf && VG_ND(n).child_index == nl.child_index,
+	                 "C02 make_group_leader: the node and the leader exchange subtrees (LZHUF exchange with the boundary node of the equal-frequency run)");
+	__CPROVER_assert(VG_KID(x), "C02 make_group_leader: leaf map and parent links follow the exchange (arbitrary node)");
+	VG_CANARY("mgl_sib");
+}
+
+/* one iteration of increment_for_code's walk (make_group_leader; increment_node_freq; on the real text, called as the
+   loop body calls them) from any state satisfying SIB: SIB holds again -- the inductive step of "the table stays a
+   valid LZHUF frequency ordering through every increment and exchange". */
+void h_walk_step_sib(void)
+{
+	uint16_t n = nondet_ushort(), l;
+	unsigned x = nondet_uint(), y = nondet_uint(), f1 = nondet_uint(), f2 = nondet_uint();
+	vg_havoc();
+	__CPROVER_assume(n >= 1 && n < VG_NN && x < VG_NN && y < VG_NN && f1 < VG_NN && f2 < VG_NN);
+	__CPROVER_assume(VG_SIB1(n));
+	l = VG_LD(VG_G(n));
+	__CPROVER_assume(l >= 1);                                   /* S3: the root is alone in its group */
+	vg_nT = 0;
+	vg_T_add_with_leader(x); vg_T_add_with_leader(y); vg_T_add_with_leader(l - 1u); vg_T_add_with_leader(l); vg_T_add_with_leader(l + 1u); vg_T_add(n);
+	vg_assume_sib(f1, f2);
+	l = make_group_leader(&vg_dec, n);
+	increment_node_freq(&vg_dec, l);
+	__CPROVER_assert(VG_SIB2(x, y) && VG_SIB1(x) && VG_FREE1(f1, x) && VG_FREE2(f1, f2),
+	                 "C02 sibling property is preserved by one step of the update walk (exchange with the run leader, then increment)");
+	VG_CANARY("walk_step_sib");
+}
+
 /* reconstruct_tree walks the node table with a POINTER loop variable (leaf): legacy route, i.e. the woven
    function contract (macros VG_RT_PRE / VG_RT_POST) is assumed / asserted here; init_groups and alloc_group
    are inlined (init_groups with its own loop contract). */
